@@ -297,4 +297,269 @@ theorem specFrom_prefix_complete (files : List (List Item)) (b m : Nat) (hs : fi
   rw [flatten_dropWhile_empty, flatten_map_dropF _ _ hs] at h
   exact h
 
+/-! ### the search needs only the index bytes to be intact -/
+
+theorem findOffsetToStart_idxOK (f : File) (hf : f.idx = encodeIdx f.ents) (hb : entsBounded f.ents) (c : Cache) (b : Nat) :
+    (findOffsetToStart f c b 0).2
+      = match f.ents.find? (fun e => decide (e.1 ≥ b / 1000)) with
+        | some e => Found.at e.2
+        | none => Found.notFound := by
+  unfold findOffsetToStart
+  simp only [List.drop_zero]
+  rw [hf]
+  exact idxScan_encode _ hb _ (by rw [encodeIdx_length]; omega) _ _ _ _
+
+theorem searchLoop_idxOK (doRead : Dir → Nat → List Item) (b : Nat) (fs : Dir)
+    (hf : ∀ f ∈ fs, f.idx = encodeIdx f.ents ∧ entsBounded f.ents) (c : Cache) :
+    (searchLoop doRead b 0 fs c).2
+      = match firstHit (b / 1000) fs with
+        | some (d, off) => doRead d off
+        | none => [] := by
+  induction fs generalizing c with
+  | nil => rfl
+  | cons f r ih =>
+    have h1 := findOffsetToStart_idxOK f (hf f (by simp)).1 (hf f (by simp)).2 c b
+    unfold searchLoop firstHit
+    cases hfind : f.ents.find? (fun e => decide (e.1 ≥ b / 1000)) with
+    | some e =>
+      rw [hfind] at h1
+      rcases hres : findOffsetToStart f c b 0 with ⟨c', fd⟩
+      rw [hres] at h1
+      simp only at h1
+      subst h1
+      rfl
+    | none =>
+      rw [hfind] at h1
+      rcases hres : findOffsetToStart f c b 0 with ⟨c', fd⟩
+      rw [hres] at h1
+      simp only at h1
+      subst h1
+      exact ih (fun g hg => hf g (List.mem_cons_of_mem _ hg)) c'
+
+/-- `firstHit` looks at the index entries only: replacing the last file by one with the same entries
+    moves the hit along -/
+theorem firstHit_snoc_congr (bs : Nat) (init : Dir) (c c' : File) (h : c'.ents = c.ents) :
+    firstHit bs (init ++ [c']) = (firstHit bs (init ++ [c])).map fun p => (p.1.dropLast ++ [c'], p.2) := by
+  induction init with
+  | nil =>
+    simp only [List.nil_append, firstHit, h]
+    cases c.ents.find? (fun e => decide (e.1 ≥ bs)) <;> simp
+  | cons f r ih =>
+    simp only [List.cons_append, firstHit]
+    cases f.ents.find? (fun e => decide (e.1 ≥ bs)) with
+    | some e =>
+      simp only [Option.map_some]
+      congr 2
+      have : (f :: (r ++ [c])).dropLast = f :: r := by
+        rw [← List.cons_append, List.dropLast_concat]
+      rw [this]; rfl
+    | none => exact ih
+
+/-! ### lines wholly before a cut, seen from an index offset -/
+
+theorem wholeLines_zero (L : List Item) : wholeLines L 0 = [] := by
+  cases L <;> simp [wholeLines]
+
+theorem fragment_zero (L : List Item) : fragment L 0 = [] := by
+  cases L <;> simp [fragment]
+
+theorem wholeLines_from_offset (L : List Item) (j k : Nat) :
+    ∃ P, P <+: L.take j ∧
+      wholeLines L k = P ++ wholeLines (L.drop j) (k - (serialise (L.take j)).length) ∧
+      (fragment (L.drop j) (k - (serialise (L.take j)).length) = fragment L k ∨
+        fragment (L.drop j) (k - (serialise (L.take j)).length) = []) := by
+  induction j generalizing L k with
+  | zero => exact ⟨[], by simp, by simp [serialise], Or.inl (by simp [serialise])⟩
+  | succ j ih =>
+    cases L with
+    | nil => exact ⟨[], by simp, by simp [serialise, wholeLines], Or.inl (by simp [serialise, fragment])⟩
+    | cons x L' =>
+      have hlen : (serialise ((x :: L').take (j + 1))).length = (fat x).length + 1 + (serialise (L'.take j)).length := by
+        simp [serialise]; omega
+      simp only [List.drop_succ_cons, hlen]
+      by_cases hk : (fat x).length + 1 ≤ k
+      · obtain ⟨P, hP, hw, hfr⟩ := ih L' (k - ((fat x).length + 1))
+        have e : k - ((fat x).length + 1 + (serialise (L'.take j)).length)
+            = k - ((fat x).length + 1) - (serialise (L'.take j)).length := by omega
+        refine ⟨x :: P, ?_, ?_, ?_⟩
+        · simpa using (List.prefix_cons_inj x).2 hP
+        · rw [wholeLines, if_pos hk, hw, e]; rfl
+        · rw [e, fragment, if_pos hk]; exact hfr
+      · have e : k - ((fat x).length + 1 + (serialise (L'.take j)).length) = 0 := by omega
+        refine ⟨[], List.nil_prefix, ?_, Or.inr ?_⟩
+        · rw [wholeLines, if_neg hk, e, wholeLines_zero]; rfl
+        · rw [e, fragment_zero]
+
+/-- what the readers see of a cut data file from an index offset on -/
+theorem itemsFrom_cut_at (L : List Item) (hv : ∀ it ∈ L, Valid it) (j k : Nat) :
+    itemsFrom ((serialise L).take k) (serialise (L.take j)).length
+      = wholeLines (L.drop j) (k - (serialise (L.take j)).length)
+        ++ (parseLine (dropCR (fragment (L.drop j) (k - (serialise (L.take j)).length)))).toList := by
+  have e : (serialise L).drop (serialise (L.take j)).length = serialise (L.drop j) := by
+    conv_lhs => arg 2; rw [← List.take_append_drop j L, serialise_append]
+    exact List.drop_left
+  have h := itemsFrom_take_serialise (L.drop j) (fun x hx => hv x (List.mem_of_mem_drop hx))
+    (k - (serialise (L.take j)).length)
+  unfold itemsFrom at h ⊢
+  rw [List.drop_zero] at h
+  rw [List.drop_take, e]
+  exact h
+
+/-! ### a fresh search after the last data file was cut at byte `k` -/
+
+def cutF (cur : File) (k : Nat) : File := { cur with data := cur.data.take k }
+
+theorem cutData_snoc (init : Dir) (cur : File) (k : Nat) : cutData (init ++ [cur]) k = init ++ [cutF cur k] := by
+  simp [cutData, modLast_snoc, cutF]
+
+theorem scan_sorted_plus_tail (bs es : Nat) (res : Bytes) (S T : List Item) (hs : S.Pairwise secLe)
+    (hb : ∀ it ∈ S, bs ≤ it.ts / 1000) :
+    ∃ extra, (scanEnd bs es res (S ++ T)).1 = (S.filter fun it => decide (it.ts / 1000 ≤ es) && resMatch res it) ++ extra ∧
+      ∀ x ∈ extra, x ∈ T := by
+  rw [scanEnd_append, scanEnd_sorted bs es res S hs hb]
+  split_ifs with h
+  · exact ⟨(scanEnd bs es res T).1, rfl, scanEnd_subset _ _ _ _⟩
+  · exact ⟨[], by simp, by simp⟩
+
+theorem specFind_split (pre S : List Item) (b e : Nat) (res : Bytes) (hpre : ∀ it ∈ pre, it.ts / 1000 < b / 1000)
+    (hS : ∀ it ∈ S, b / 1000 ≤ it.ts / 1000) :
+    specFind (pre ++ S) b e res = S.filter fun it => decide (it.ts / 1000 ≤ e / 1000) && resMatch res it := by
+  unfold specFind
+  rw [List.filter_append, filter_nil_of_lt _ _ _ _ hpre, List.nil_append]
+  apply List.filter_congr
+  intro it hit
+  have := hS it hit
+  simp [inRange, this]
+
+theorem find_after_data_cut (init : Dir) (cur : File) (k b e : Nat) (res : Bytes)
+    (hf : ∀ f ∈ init ++ [cur], FileOK f ∧ entsBounded f.ents ∧ ∀ it ∈ f.lines, Valid it)
+    (hs : (retained (init ++ [cur])).Pairwise secLe)
+    (hidx : IndexCorrect (b / 1000) (init ++ [cur])) :
+    ∃ extra, (find (cutData (init ++ [cur]) k) {} b e res).2
+        = specFind (retained init ++ wholeLines cur.lines k) b e res ++ extra ∧
+      ∀ x ∈ extra, x ∈ (parseLine (dropCR (fragment cur.lines k))).toList := by
+  have hcurf := hf cur (by simp)
+  have hwl : ∀ x ∈ wholeLines cur.lines k, x ∈ cur.lines := fun x hx => (wholeLines_prefix _ _).subset hx
+  have h0 : offsetStartAndFile (init ++ [cutF cur k]) {} b = (0, 0) := by simp [offsetStartAndFile, cacheOk]
+  rw [cutData_snoc]
+  unfold find search
+  rw [h0]
+  simp only [List.drop_zero]
+  rw [searchLoop_idxOK _ _ _ (by
+    intro f hfm
+    rcases List.mem_append.1 hfm with h | h
+    · exact ⟨(hf f (List.mem_append_left _ h)).1.2, (hf f (List.mem_append_left _ h)).2.1⟩
+    · simp only [List.mem_singleton] at h; subst h; exact ⟨hcurf.1.2, hcurf.2.1⟩),
+    firstHit_snoc_congr _ init cur (cutF cur k) rfl]
+  unfold IndexCorrect at hidx
+  cases hh : firstHit (b / 1000) (init ++ [cur]) with
+  | none =>
+    rw [hh] at hidx
+    simp only [Option.map_none]
+    refine ⟨[], ?_, by simp⟩
+    unfold specFind
+    rw [List.append_nil, filter_nil_of_lt]
+    intro it hit
+    apply hidx
+    rw [retained_append]
+    rcases List.mem_append.1 hit with h | h
+    · exact List.mem_append_left _ h
+    · exact List.mem_append_right _ (by simpa [retained] using hwl it h)
+  | some p =>
+    obtain ⟨d, off⟩ := p
+    rw [hh] at hidx
+    simp only [Option.map_some] at hidx ⊢
+    obtain ⟨pre, f, rest, e1, e2⟩ := firstHit_suffix _ _ _ _ hh
+    obtain ⟨hpre, j, hoff, htake, hdrop⟩ := hidx pre f rest e1 e2
+    have hff := hf f (by rw [e1]; simp)
+    rcases List.eq_nil_or_concat rest with hr | ⟨mid, x, hr⟩
+    · -- the hit is in the cut file itself
+      subst hr
+      obtain ⟨hinit, hcur⟩ := List.append_inj' e1 rfl
+      simp only [List.cons.injEq, and_true] at hcur
+      subst hcur hinit
+      have hd : d.dropLast ++ [cutF cur k] = [cutF cur k] := by rw [e2]; rfl
+      rw [hd, readByEnd_eq]
+      simp only [List.flatMap_nil, List.append_nil]
+      show ∃ extra, (scanEnd (b / 1000) (e / 1000) res (itemsFrom (cur.data.take k) off)).1 = _ ∧ _
+      rw [hff.1.1, hoff, itemsFrom_cut_at _ hff.2.2]
+      obtain ⟨P, hP, hw, hfr⟩ := wholeLines_from_offset cur.lines j k
+      have hW : ∀ it ∈ wholeLines (cur.lines.drop j) (k - (serialise (cur.lines.take j)).length), it ∈ cur.lines.drop j :=
+        fun it hit => (wholeLines_prefix _ _).subset hit
+      have hsortW : (wholeLines (cur.lines.drop j) (k - (serialise (cur.lines.take j)).length)).Pairwise secLe := by
+        have h1 : (cur.lines.drop j).Pairwise secLe := by
+          have : (retained init ++ cur.lines).Pairwise secLe := by simpa [retained] using hs
+          exact ((List.pairwise_append.1 this).2.1).sublist (List.drop_sublist _ _)
+        exact h1.sublist (wholeLines_prefix _ _).sublist
+      obtain ⟨extra, hex, hsub⟩ := scan_sorted_plus_tail (b / 1000) (e / 1000) res _
+        (parseLine (dropCR (fragment (cur.lines.drop j) (k - (serialise (cur.lines.take j)).length)))).toList hsortW
+        (fun it hit => hdrop it (List.mem_append_left _ (hW it hit)))
+      refine ⟨extra, ?_, ?_⟩
+      · rw [hex, hw, ← List.append_assoc, specFind_split _ _ b e res ?_
+          (fun it hit => hdrop it (List.mem_append_left _ (hW it hit)))]
+        intro it hit
+        rcases List.mem_append.1 hit with h | h
+        · exact hpre it h
+        · exact htake it (hP.subset h)
+      · intro y hy
+        have := hsub y hy
+        rcases hfr with hfr | hfr
+        · rw [hfr] at this; exact this
+        · rw [hfr] at this; simp [dropCR, parseLine] at this
+    · -- the hit is in an earlier file: the cut file is read from its start
+      rw [List.concat_eq_append] at hr
+      subst hr
+      have e1' : init ++ [cur] = (pre ++ f :: mid) ++ [x] := by rw [e1]; simp
+      obtain ⟨hinit, hcur⟩ := List.append_inj' e1' rfl
+      simp only [List.cons.injEq, and_true] at hcur
+      subst hcur hinit
+      have hd : d.dropLast ++ [cutF cur k] = f :: (mid ++ [cutF cur k]) := by
+        rw [e2, ← List.cons_append, List.dropLast_concat]; rfl
+      have hmid : ∀ g ∈ mid, FileOK g ∧ ∀ it ∈ g.lines, Valid it := fun g hg =>
+        ⟨(hf g (by simp [hg])).1, (hf g (by simp [hg])).2.2⟩
+      rw [hd, readByEnd_eq, hff.1.1, hoff, itemsFrom_serialise_at _ hff.2.2]
+      have hseen : (List.flatMap (fun g => itemsFrom g.data 0) (mid ++ [cutF cur k]))
+          = retained mid ++ (wholeLines cur.lines k ++ (parseLine (dropCR (fragment cur.lines k))).toList) := by
+        rw [List.flatMap_append, flatMap_itemsFrom mid hmid]
+        simp only [List.flatMap_cons, List.flatMap_nil, List.append_nil]
+        show _ ++ itemsFrom (cur.data.take k) 0 = _
+        rw [hcurf.1.1, itemsFrom_take_serialise _ hcurf.2.2]
+      rw [hseen]
+      have hS : ∀ it ∈ f.lines.drop j ++ (retained mid ++ wholeLines cur.lines k), b / 1000 ≤ it.ts / 1000 := by
+        intro it hit
+        apply hdrop
+        rcases List.mem_append.1 hit with h | h
+        · exact List.mem_append_left _ h
+        · apply List.mem_append_right
+          rw [retained_append]
+          rcases List.mem_append.1 h with h | h
+          · exact List.mem_append_left _ h
+          · exact List.mem_append_right _ (by simpa [retained] using hwl it h)
+      have hsortS : (f.lines.drop j ++ (retained mid ++ wholeLines cur.lines k)).Pairwise secLe := by
+        have hsub : (f.lines.drop j ++ (retained mid ++ wholeLines cur.lines k)).Sublist (retained (pre ++ f :: mid ++ [cur])) := by
+          simp only [retained_append, retained_cons, List.append_assoc]
+          refine (List.Sublist.append (List.drop_sublist j _) (List.Sublist.append (List.Sublist.refl _) ?_)).trans
+            (List.sublist_append_right _ _)
+          simpa [retained] using (wholeLines_prefix cur.lines k).sublist
+        exact hs.sublist hsub
+      have hre : f.lines.drop j ++ (retained mid ++ (wholeLines cur.lines k ++ (parseLine (dropCR (fragment cur.lines k))).toList))
+          = (f.lines.drop j ++ (retained mid ++ wholeLines cur.lines k)) ++ (parseLine (dropCR (fragment cur.lines k))).toList := by
+        simp [List.append_assoc]
+      rw [hre]
+      obtain ⟨extra, hex, hsub⟩ := scan_sorted_plus_tail (b / 1000) (e / 1000) res _
+        (parseLine (dropCR (fragment cur.lines k))).toList hsortS hS
+      refine ⟨extra, ?_, hsub⟩
+      rw [hex]
+      congr 1
+      have hA : retained (pre ++ f :: mid) ++ wholeLines cur.lines k
+          = (retained pre ++ f.lines.take j) ++ (f.lines.drop j ++ (retained mid ++ wholeLines cur.lines k)) := by
+        simp only [retained_append, retained_cons, List.append_assoc]
+        congr 1
+        rw [← List.append_assoc (f.lines.take j), List.take_append_drop]
+      rw [hA, specFind_split _ _ b e res ?_ hS]
+      intro it hit
+      rcases List.mem_append.1 hit with h | h
+      · exact hpre it h
+      · exact htake it h
+
 end Sentinel.MetricLog
